@@ -74,6 +74,7 @@ type Cell struct {
 	Name string // for globals / debugging
 	id   int
 	local bool // allocated inside an errgroup task
+	viewCopy bool // read-only copy standing for a slice-to-array-pointer view
 }
 
 // PtrV: pointer to a location: cell plus a path of field / element indices.
